@@ -179,6 +179,21 @@ let run_case op kv : string * string =
        | "rfind" -> let (r, t) = backend_rfind ns a sub be in (fmt_res shift r, fmt_trace t)
        | _ -> let (r, t) = backend_count ns a sub be in (fmt_res (fun n -> string_of_int (int_of_nat n)) r, fmt_trace t))
     end
+  | "avail" ->
+    (* availability of the x86 backends as a function of the detection outcome *)
+    let ok = (match get kv "isa", get kv "cpu" with
+      | "avx2", ("sse2" | "none") -> false
+      | "sse2", "none" -> false
+      | _ -> true) in
+    ((if ok then "1111" else "0000"), "-")
+  | "pppair" when num kv "i1" = 255 && num kv "i2" = 255 ->
+    (* Finder::new(needle): Pair::new with the default ranker *)
+    let x = bytes kv "x" in
+    let (r, _) = pair_with_ranker default_rank x in
+    (match r with
+     | Ok None -> ("NoPair", "-")
+     | Ok (Some (a, b)) -> (fmt_opt_pair (Some (a, b)), "-")
+     | Panic p -> ("Panic:" ^ fmt_panic p, "-"))
   | "pppair" ->
     let x = bytes kv "x" in
     (match pair_with_indices x (nat_of_int (num kv "i1")) (nat_of_int (num kv "i2")) with
